@@ -14,7 +14,12 @@
 // encryption response: EncryptionRequest / LoginSuccess / Disconnect+EOF / EOF); at the end it closes,
 // waits for HandleConn to return and drains what is buffered.  No timing-dependent observation.
 //
-// case line:  login <proto> online=<0|1> pre=<a|d|n|f> sess=<code> msgs=<k> <input> <input> …\t<observation>
+// case line:  login <proto> online=<0|1> pre=<a|d|n|f> sess=<code> msgs=<k> fk=<0|1> <input> <input> …\t<observation>
+//   fk    cfg.ForceKeyAuthentication.  Protocols 759/760 (1.19 – 1.19.2) are the only ones whose login start can carry a
+//         profile key (`L:<namehex>:x` expired key, `:i` wrongly signed key) and whose encryption response can come in the
+//         SALTED form (`E:<tok>:<sec>:s`: hasVerifyToken=false, a salt, and the tok bytes in the signature field).  A valid
+//         (Mojang-signed) key cannot be produced offline.  For pre-1.20.2 clients the script ends at LoginSuccess: the proxy
+//         then enters play, finds no server and disconnects (PostLogin event, proxy-initiated close).
 //   msgs  the PreLogin subscriber sends k login plugin messages (ids 1..k) during every PreLogin event: the completion of
 //         the login start (encryption request / offline hand-over) is deferred until the client has answered them all.
 //         Independently of `pre`, the subscriber FORCES OFFLINE MODE for usernames starting with "svc".
@@ -64,6 +69,8 @@ import (
 	"go.minekube.com/gate/pkg/edition/java/proto/state"
 	"go.minekube.com/gate/pkg/edition/java/proto/version"
 	"go.minekube.com/gate/pkg/edition/java/proxy"
+	"go.minekube.com/gate/pkg/edition/java/proxy/crypto"
+	"go.minekube.com/gate/pkg/edition/java/proxy/crypto/keyrevision"
 	"go.minekube.com/gate/pkg/edition/java/proxy/message"
 	"go.minekube.com/gate/pkg/gate/proto"
 	"go.minekube.com/gate/pkg/util/uuid"
@@ -239,9 +246,10 @@ func record(s string) {
 	sc.mu.Unlock()
 }
 
-func newRig(online bool, key *rsa.PrivateKey) *rig {
+func newRig(online, forceKey bool, key *rsa.PrivateKey) *rig {
 	cfg := config.DefaultConfig
 	cfg.OnlineMode = online
+	cfg.ForceKeyAuthentication = forceKey
 	cfg.Forwarding.Mode = config.NoneForwardingMode
 	cfg.Quota.Connections.Enabled = false
 	cfg.Quota.Logins.Enabled = false
@@ -313,6 +321,7 @@ type caseSpec struct {
 	pre      byte
 	sess     byte
 	msgs     int
+	forceKey bool
 	inputs   []string
 }
 
@@ -414,6 +423,9 @@ func runCase(r *rig, cs caseSpec) (sent []string, obs string) {
 			if pl := r.p.PlayerByName(p.Username); pl != nil && pl.ID() == p.UUID {
 				reg = "1"
 			}
+			if cs.protocol.Lower(version.Minecraft_1_20_2) {
+				reg = "_" // the proxy is already on its way out of play: registration is read off the DisconnectEvent
+			}
 			return "Success:" + cls + ":" + hx.HexS(p.Username) + ":reg" + reg
 		case *packet.Disconnect:
 			return "Disc:" + discClass(p)
@@ -457,27 +469,41 @@ func runCase(r *rig, cs caseSpec) (sent []string, obs string) {
 		}
 	}
 
+	legacy := cs.protocol.Lower(version.Minecraft_1_20_2)
 	for _, in := range cs.inputs {
-		if sawEOF {
-			break
+		if sawEOF || (legacy && sawSuccess) {
+			break // pre-1.20.2: LoginSuccess ends the login phase, the proxy goes on by itself
 		}
-		if in == "A" && sawSuccess {
-			continue // would leave the login phase: out of scope
+		if in == "A" && (sawSuccess || legacy) {
+			continue // would leave the login phase: out of scope; pre-1.20.2 has no LoginAcknowledged packet at all
 		}
 		sent = append(sent, in)
 		tr = append(tr, ">"+strconv.Itoa(len(sent)-1))
 		switch in[0] {
 		case 'L':
-			name := string(hx.UnHex(in[2:]))
+			lf := strings.Split(in, ":")
+			name := string(hx.UnHex(lf[1]))
 			if firstName == "" {
 				firstName = name
+			}
+			var pk crypto.IdentifiedKey
+			if len(lf) > 2 {
+				expiry := time.Now().Add(48 * time.Hour).UnixMilli()
+				if lf[2] == "x" {
+					expiry = 1000 // 1970: expired
+				}
+				rev := keyrevision.LinkedV2
+				if cs.protocol == version.Minecraft_1_19.Protocol {
+					rev = keyrevision.GenericV1
+				}
+				pk, _ = crypto.NewIdentifiedKey(rev, r.pub, expiry, bytes.Repeat([]byte{0x5a}, 256))
 			}
 			if name == "" {
 				// gate's own encoder refuses an empty name: write the frame by hand (id 0, empty string, uuid)
 				_, _ = enc.Write(append([]byte{0x00, 0x00}, make([]byte, 16)...))
 				_ = bw.Flush()
 			} else {
-				send(&packet.ServerLogin{Username: name, HolderID: uuid.OfflinePlayerUUID(name)})
+				send(&packet.ServerLogin{Username: name, HolderID: uuid.OfflinePlayerUUID(name), PlayerKey: pk})
 			}
 			wait(cs.msgs)
 		case 'E':
@@ -519,7 +545,12 @@ func runCase(r *rig, cs caseSpec) (sent []string, obs string) {
 				sc.acctName = "Other_Account"
 			}
 			sc.mu.Unlock()
-			send(&packet.EncryptionResponse{SharedSecret: secCT, VerifyToken: tokCT})
+			er := &packet.EncryptionResponse{SharedSecret: secCT, VerifyToken: tokCT}
+			if len(f) > 3 && f[3] == "s" {
+				salt := int64(0x0123456789abcdef)
+				er.Salt = &salt // only 1.19 – 1.19.2 encode it: the token bytes then travel as the `signature`
+			}
+			send(er)
 			// a real client switches to the encrypted stream right after this packet
 			if e, d := newCFB8(sec, false), newCFB8(sec, true); e != nil {
 				cc.enc, cc.dec = e, d
@@ -548,7 +579,7 @@ func runCase(r *rig, cs caseSpec) (sent []string, obs string) {
 	case <-time.After(10 * time.Second):
 		return sent, "hang"
 	}
-	if !sawEOF {
+	if !sawEOF && !(legacy && sawSuccess) {
 		for n := 0; n < 16; n++ {
 			s := next()
 			if s == "" {
@@ -637,9 +668,17 @@ func exprString(e ast.Expr) string {
 	return "?"
 }
 
+func b01(b bool) string {
+	if b {
+		return "1"
+	}
+	return "0"
+}
+
 // ---------- generation ----------
 
-var protocols = []proto.Protocol{version.Minecraft_1_20_2.Protocol, version.Minecraft_1_20_3.Protocol, version.Minecraft_1_20_5.Protocol,
+var protocols = []proto.Protocol{version.Minecraft_1_19.Protocol, version.Minecraft_1_19_1.Protocol, version.Minecraft_1_19.Protocol,
+	version.Minecraft_1_19_1.Protocol, version.Minecraft_1_20_2.Protocol, version.Minecraft_1_20_3.Protocol, version.Minecraft_1_20_5.Protocol,
 	version.Minecraft_1_21.Protocol, version.Minecraft_1_21_4.Protocol}
 
 type gen struct {
@@ -677,10 +716,22 @@ func (g *gen) name() string {
 	}
 	return g.validName()
 }
+// salt: the salted form of the encryption response (meaningful for 1.19 – 1.19.2 only)
+func (g *gen) salt() string {
+	if g.r.Chance(1, 3) {
+		return ":s"
+	}
+	return ""
+}
+
 func (g *gen) input() string {
 	switch x := g.r.Intn(20); {
 	case x < 6:
-		return "L:" + hex.EncodeToString([]byte(g.name()))
+		l := "L:" + hex.EncodeToString([]byte(g.name()))
+		if g.r.Chance(1, 6) {
+			l += hx.Pick(g.r, []string{":x", ":i"})
+		}
+		return l
 	case x < 13:
 		tok := "v"
 		if g.r.Chance(1, 4) {
@@ -690,7 +741,7 @@ func (g *gen) input() string {
 		if g.r.Chance(1, 5) {
 			sec = hx.Pick(g.r, []string{"g", "s"})
 		}
-		return "E:" + tok + ":" + sec
+		return "E:" + tok + ":" + sec + g.salt()
 	case x < 16:
 		return fmt.Sprintf("P:%d", hx.Pick(g.r, []int{0, 1, 1, 2, 2, 3, -1, 77}))
 	case x < 18:
@@ -724,7 +775,7 @@ func (g *gen) sequence() []string {
 		if g.r.Chance(1, 5) {
 			sec = hx.Pick(g.r, []string{"g", "s"})
 		}
-		seq = append(seq, "E:"+tok+":"+sec)
+		seq = append(seq, "E:"+tok+":"+sec+g.salt())
 		for g.r.Chance(1, 3) {
 			seq = append(seq, g.input())
 		}
@@ -746,13 +797,18 @@ func main() {
 	if err != nil {
 		panic(err)
 	}
-	rigs := map[bool]*rig{true: newRig(true, key), false: newRig(false, key)}
+	rigs := map[[2]bool]*rig{}
+	for _, on := range []bool{false, true} {
+		for _, fk := range []bool{false, true} {
+			rigs[[2]bool{on, fk}] = newRig(on, fk, key)
+		}
+	}
 	hangs := 0
 	emit := func(class string, cs caseSpec) {
 		if hangs >= 3 {
 			return
 		}
-		sent, obs := runCase(rigs[cs.online], cs)
+		sent, obs := runCase(rigs[[2]bool{cs.online, cs.forceKey}], cs)
 		if strings.Contains(obs, "hang") {
 			hangs++
 		}
@@ -760,7 +816,7 @@ func main() {
 		if cs.online {
 			on = "1"
 		}
-		op := fmt.Sprintf("login %d online=%s pre=%c sess=%c msgs=%d", cs.protocol, on, cs.pre, cs.sess, cs.msgs)
+		op := fmt.Sprintf("login %d online=%s pre=%c sess=%c msgs=%d fk=%s", cs.protocol, on, cs.pre, cs.sess, cs.msgs, b01(cs.forceKey))
 		if len(sent) > 0 {
 			op += " " + strings.Join(sent, " ")
 		}
@@ -818,6 +874,23 @@ func main() {
 	fm("fixed-deferred-order", true, 'a', 'j', 1, nm("Bob_12"), "A", "P:1")
 	fm("fixed-deferred-order", false, 'a', 'j', 1, nm("Bob_13"), nm("Eve_13"), "P:1")
 
+	// ---- 1.19 – 1.19.2: profile keys and salted encryption responses ----
+	for _, pv := range []proto.Protocol{version.Minecraft_1_19.Protocol, version.Minecraft_1_19_1.Protocol} {
+		fk := func(class string, forceKey bool, in ...string) {
+			emit(class, caseSpec{protocol: pv, online: true, pre: 'a', sess: 'j', forceKey: forceKey, inputs: in})
+		}
+		fk("fixed-keyera", false, nm("Kay_01"), "E:v:k")     // keyless, plain form: admitted
+		fk("fixed-keyera", false, nm("Kay_02"), "E:v:k:s")   // keyless, salted form carrying the RIGHT encrypted token: admitted
+		fk("fixed-keyera", false, nm("Kay_03"), "E:g:k:s")   // keyless, salted form with garbage: the token is NOT verified by a salt
+		fk("fixed-keyera", false, nm("Kay_04"), "E:w:k:s")   // keyless, salted form with another token
+		fk("fixed-keyera", false, nm("Kay_05"), "E:w:k")
+		fk("fixed-keyera", true, nm("Kay_06"), "E:v:k")      // keys forced, none sent
+		fk("fixed-keyera", false, nm("Kay_07")+":x", "E:v:k") // expired key
+		fk("fixed-keyera", false, nm("Kay_08")+":i", "E:g:k:s") // wrongly signed key
+		fk("fixed-keyera", true, nm("Kay_09")+":i", "E:v:k")
+	}
+	fx("fixed-keyera", true, 'a', 'j', nm("Kay_10")+":i", "E:g:k:s") // other protocols: neither key nor salt exist on the wire
+
 	g := &gen{r: run.Rng}
 	n := run.Scale(1500, 15000)
 	for i := 0; i < n; i++ {
@@ -825,6 +898,7 @@ func main() {
 		cs.pre = hx.Pick(g.r, []byte("aaaaadnf"))
 		cs.sess = hx.Pick(g.r, []byte("jjjjjjonuembx"))
 		cs.msgs = hx.Pick(g.r, []int{0, 0, 1, 1, 2})
+		cs.forceKey = g.r.Chance(1, 4)
 		cs.inputs = g.sequence()
 		class := "online"
 		if !cs.online {
